@@ -69,7 +69,7 @@ def private(case, model, distributed_wrap):
     B = case['B']
     ds = TensorDataset(torch.zeros(4 * B, 4), torch.zeros(4 * B, dtype=torch.long))
     dl = DataLoader(ds, batch_size=B)
-    plist = list(model.parameters())
+    plist = [p_ for p_ in model.parameters() if p_.requires_grad]
     if case.get('late_group') and len(plist) > 2:
         # the optimizer first knows the last layer only; the other parameters join through add_param_group after the first step
         opt = torch.optim.SGD(plist[-2:], lr=0.1, momentum=0.5)
@@ -124,6 +124,9 @@ def worker(rank, W, cases, store, outdir):
         r = {'error': None}
         try:
             model = make_model(case['seed'] + 17 * rank, case['model'])      # different initial weights on every rank
+            if case.get('freeze'):
+                for p_ in list(model.parameters())[:2]:      # a frozen first layer, initialised differently on every rank
+                    p_.requires_grad_(False)
             before0 = torch.cat([p.detach().reshape(-1) for p in model.parameters()])
             if case['clipping'] == 'per_layer' and case['mode'] == 'hooks':
                 wrapped = DDP(model)
@@ -165,6 +168,9 @@ def reference(case):
     torch.normal = fake_normal
     try:
         model = make_model(case['seed'], case['model'])      # rank 0's weights
+        if case.get('freeze'):
+            for p_ in list(model.parameters())[:2]:
+                p_.requires_grad_(False)
         start = torch.cat([p.detach().reshape(-1) for p in model.parameters()])
         c2 = dict(case)
         if c2['clipping'] == 'per_layer':
